@@ -148,7 +148,7 @@ def ident(v):
 
 
 def plan(tier):
-    L = 6 if tier == 'thorough' else 5
+    L = 7 if tier == 'thorough' else 5
     tasks = [('welford', (ALPHA_A, ident, True, 'Fraction'), L), ('welford', ([F(v) for v in ALPHA_B], ident, True, 'Fraction large-mean'), L),
              ('welford', (ALPHA_B, ident, False, 'int large-mean'), L - 1),
              ('welford', (ALPHA_A, float, False, 'float'), L - 1), ('welford', (ALPHA_A, np.float64, False, 'np.float64'), L - 1),
@@ -179,7 +179,7 @@ def main(rep):
     rep.assume("bounded agreement on every stream up to length L over the stated alphabets, not an inductive proof",
                "float passes: mean within 4 n eps max|v|, var within 16 n eps max|v|^2, smoothed value within 4 (n+1) eps max|v|")
     return rep.finish(
-        rule="all streams up to length L (5 quick / 6 thorough) over a 5-letter signed rational alphabet and a large-mean "
+        rule="all streams up to length L (5 quick / 7 thorough) over a 5-letter signed rational alphabet and a large-mean "
              "integer alphabet x alpha menu x numeric types, every prefix checked; linearity over all pairs of streams of "
              "length <= 2 (3); states = distinct stream prefixes of length <= 3; transitions = real update calls checked")
 
